@@ -114,6 +114,8 @@ pub struct BrokerCfg {
     pub spurious_permille: u32,
     /// consumer tags are "ctag-<channel>-<n-th consumer on it>" instead of globally unique
     pub fixed_consumer_tags: bool,
+    /// extra delay before the server answers a client Connection.Close with CloseOk
+    pub closeok_delay_ns: u64,
 }
 
 /// One step of a scripted handshake: what the server does after receiving the
@@ -177,6 +179,7 @@ impl Default for BrokerCfg {
             handshake: None,
             spurious_permille: 0,
             fixed_consumer_tags: false,
+            closeok_delay_ns: 0,
         }
     }
 }
@@ -1250,7 +1253,7 @@ impl Broker {
                         // simultaneous close: answer too
                     }
                     self.phase = Phase::ClientClosing;
-                    let t = self.think();
+                    let t = self.think() + self.cfg.closeok_delay_ns;
                     self.enqueue_after(t, 0, vec![Self::m(0, AMQPClass::Connection(Cn::CloseOk(connection::CloseOk {})))], SentKind::ConnectionCloseOk);
                     match self.cfg.closeok_mode {
                         CloseOkMode::SameSegment => {
